@@ -10,7 +10,7 @@ import random
 MAX = 2**127 - 1
 MODES = ["05up", "ceil", "down", "floor", "hdown", "heven", "hup", "up"]
 FORMS4 = ["vv", "rv", "vr", "rr"]
-FORMS5 = FORMS4 + ["as"]
+FORMS5 = FORMS4 + ["as", "ar"]       # `x op= y` and `x op= &y`
 INT_TYPES = {
     "u8": (0, 2**8 - 1), "i8": (-2**7, 2**7 - 1), "u16": (0, 2**16 - 1), "i16": (-2**15, 2**15 - 1),
     "u32": (0, 2**32 - 1), "i32": (-2**31, 2**31 - 1), "u64": (0, 2**64 - 1), "i64": (-2**63, 2**63 - 1),
@@ -1046,7 +1046,7 @@ class G:
                     # the same operation with Decimal::from(i) in the integer's position
                     if t[1] in pair and len(t) == 8:
                         md, op, ty, pos, form, a, p, i = t
-                        f = form if form != "as" else "vv"
+                        f = form if form not in ("as", "ar") else "vv"
                         if pos == "r":
                             yield f"{md} {pair[op]} {f} {a} {p} {i} 0"
                         else:
